@@ -69,7 +69,16 @@ Definition components_of (typ : bytes) (props : list (bytes * option schema)) (i
 Definition finish (s : schema) (parameter : fparam) : res fparam :=
   do tc <- parseABIParameterComponents (erase parameter);
   do _ <- inputTypeValidForTypeComponent s tc;
+  do _ <- itemsValid (s_items s) tc;
   Ok parameter.
+
+Lemma itemsValid_total : forall tc items, itemsValid items tc <> Panic.
+Proof.
+  induction tc as [| c IH n | c IH |]; intros items; cbn [itemsValid]; try discriminate;
+    (destruct items as [it|]; [|discriminate];
+     pose proof (inputTypeValid_total it c) as T;
+     destruct (inputTypeValidForTypeComponent it c); cbn [bind]; try congruence; apply IH).
+Qed.
 
 Lemma processSchema_unfold name typ o det props items :
   processSchema name (Schema typ o det props items) =
@@ -86,13 +95,16 @@ Proof.
   unfold finish. pose proof (parse_no_panic (erase q)) as T.
   destruct (parseABIParameterComponents (erase q)) as [tc| |]; cbn [bind]; try congruence.
   pose proof (inputTypeValid_total s tc) as T2.
-  destruct (inputTypeValidForTypeComponent s tc); cbn; congruence.
+  destruct (inputTypeValidForTypeComponent s tc); cbn [bind]; try congruence.
+  pose proof (itemsValid_total tc (s_items s)) as T3.
+  destruct (itemsValid (s_items s) tc); cbn; congruence.
 Qed.
 
 Lemma finish_ok s q r : finish s q = Ok r -> r = q.
 Proof.
   unfold finish. destruct (parseABIParameterComponents (erase q)); cbn [bind]; try discriminate.
-  destruct (inputTypeValidForTypeComponent s a); cbn; try discriminate. congruence.
+  destruct (inputTypeValidForTypeComponent s a); cbn [bind]; try discriminate.
+  destruct (itemsValid (s_items s) a); cbn; try discriminate. congruence.
 Qed.
 
 Lemma down_unfold t' o d props' items' :
